@@ -497,4 +497,9 @@ def check(run):
     from . import c02 as _c02
 
     run.rule('R5', _c02.r2_recency, 'static routes are consulted newest-first (head insertion; shared with C02 R2)', floor=6)
+    # the 304 decision compares the file's mtime with If-Modified-Since as read by http_date_to_dt: neither side may go
+    # through the process-local time zone (shared with C09 R4)
+    from . import c09 as _c09
+
+    run.rule('R7', _c09.localtime_sweep, 'HTTP dates are read and written as UTC, never through the process-local zone (shared with C09 R4)', floor=1)
     run.rule('R6', _c02.r7_static_prefix, 'static route matching uses only the normalised prefix (shared with C02 R7)', floor=1)
